@@ -1575,6 +1575,18 @@ impl<'a> AstResolver<'a> {
                     self.use_type(state, u, &mut ty.uses, &mut ty.imports, packages, true)?
                 }
                 ast::WorldItem::Type(decl) => {
+                    // A function or interface import may already have taken the name
+                    // (a type of the same name is reported as a duplicate definition)
+                    if matches!(ty.imports.get(decl.id().string), Some(kind) if !matches!(kind, ItemKind::Type(_)))
+                    {
+                        return Err(Error::DuplicateWorldItem {
+                            kind: ExternKind::Import,
+                            name: decl.id().string.to_owned(),
+                            world: world.to_owned(),
+                            span: decl.id().span,
+                        });
+                    }
+
                     self.item_type_decl(state, decl, &mut ty.imports)?;
                 }
                 ast::WorldItem::Import(i) => {
@@ -1886,6 +1898,17 @@ impl<'a> AstResolver<'a> {
                     self.use_type(state, u, &mut ty.uses, &mut ty.exports, packages, false)?
                 }
                 ast::InterfaceItem::Type(decl) => {
+                    // A function export may already have taken the name
+                    // (a type of the same name is reported as a duplicate definition)
+                    if matches!(ty.exports.get(decl.id().string), Some(kind) if !matches!(kind, ItemKind::Type(_)))
+                    {
+                        return Err(Error::DuplicateInterfaceExport {
+                            name: decl.id().string.to_owned(),
+                            interface_name: name.map(ToOwned::to_owned),
+                            span: decl.id().span,
+                        });
+                    }
+
                     self.item_type_decl(state, decl, &mut ty.exports)?;
                 }
                 ast::InterfaceItem::Export(e) => {
